@@ -217,4 +217,338 @@ theorem digitsValue_groups_gen (base : Nat) (s : List Char) (hs : s ≠ []) :
 
 end Groups
 
+/-! ### `pyIntOf` in the grammar's words -/
+
+theorem pyIntOf_eq_groups (G : Nat → List Char → Option Nat)
+    (hG : ∀ base s, s ≠ [] → (if s.head? = some '_' then none else digitsValue base s false 0) = G base s)
+    (base : Nat) (num : List Char) :
+    pyIntOf base num =
+      (let num' := if base == 2 then
+          (match num with
+           | '0' :: 'b' :: '_' :: r => r
+           | '0' :: 'b' :: r => r
+           | r => r) else num
+       if num'.isEmpty || num'.head? = some '_' then none else G base num') := by
+  have hG' : ∀ (c : Char) (cs : List Char), c ≠ '_' →
+      digitsValue base (c :: cs) false 0 = G base (c :: cs) := by
+    intro c cs hc
+    have := hG base (c :: cs) (by simp)
+    simpa [hc] using this
+  rcases num with _ | ⟨c0, r0⟩
+  · simp [pyIntOf]
+  by_cases h0 : c0 = '0'
+  case neg =>
+    by_cases hu : c0 = '_'
+    · simp [pyIntOf, hu]
+    · simp [pyIntOf, hG', h0, hu]
+  subst h0
+  rcases r0 with _ | ⟨c1, r1⟩
+  · simp [pyIntOf, hG']
+  by_cases h1 : c1 = 'b'
+  case neg => simp [pyIntOf, hG', h1]
+  subst h1
+  by_cases hb : base = 2
+  case neg => simp [pyIntOf, hG', hb]
+  subst hb
+  rcases r1 with _ | ⟨c2, r2⟩
+  · simp [pyIntOf]
+  by_cases h2 : c2 = '_'
+  case neg => simp [pyIntOf, hG', h2]
+  subst h2
+  rcases r2 with _ | ⟨c3, r3⟩
+  · simp [pyIntOf]
+  by_cases h3 : c3 = '_'
+  case neg => simp [pyIntOf, hG', h3]
+  subst h3
+  simp [pyIntOf]
+
+/-! ### plain decimal strings -/
+
+theorem digit_cases (c : Char) (h : '0' ≤ c ∧ c ≤ '9') :
+    ∃ n : Fin 10, c = Char.ofNat (48 + n.val) := by
+  have h1 : 48 ≤ c.toNat := by
+    have := h.1; simpa [Char.le_def, UInt32.le_iff_toNat_le] using this
+  have h2 : c.toNat ≤ 57 := by
+    have := h.2; simpa [Char.le_def, UInt32.le_iff_toNat_le] using this
+  refine ⟨⟨c.toNat - 48, by omega⟩, ?_⟩
+  have : 48 + (c.toNat - 48) = c.toNat := by omega
+  simp only [this, Char.ofNat_toNat]
+
+theorem digit_facts (c : Char) (h : '0' ≤ c ∧ c ≤ '9') :
+    isWs c = false ∧ lowerCh c = c ∧ isNumCh c = true ∧ c ≠ '_' ∧ digitVal c < 10 ∧
+    c ≠ 'b' ∧ c ≠ 'o' ∧ c ≠ 'x' := by
+  obtain ⟨n, rfl⟩ := digit_cases c h
+  revert n
+  decide
+
+theorem dropWhile_head_false {α} (p : α → Bool) (l : List α) (h : ∀ x, l.head? = some x → p x = false) :
+    l.dropWhile p = l := by
+  cases l with
+  | nil => rfl
+  | cons a l => simp [List.dropWhile, h a rfl]
+
+theorem takeWhile_all {α} (p : α → Bool) (l : List α) (h : ∀ x ∈ l, p x = true) :
+    l.takeWhile p = l := by
+  induction l with
+  | nil => rfl
+  | cons a l ih => simp [List.takeWhile, h a (by simp), ih (fun x hx => h x (by simp [hx]))]
+
+theorem dropWhile_all {α} (p : α → Bool) (l : List α) (h : ∀ x ∈ l, p x = true) :
+    l.dropWhile p = [] := by
+  induction l with
+  | nil => rfl
+  | cons a l ih => simp [List.dropWhile, h a (by simp), ih (fun x hx => h x (by simp [hx]))]
+
+theorem strip_eq_self (s : List Char) (h : ∀ c ∈ s, isWs c = false) : strip s = s := by
+  unfold strip
+  rw [dropWhile_head_false isWs s, dropWhile_head_false isWs s.reverse, List.reverse_reverse]
+  · intro x hx; exact h x (by simpa using List.mem_of_mem_head? hx)
+  · intro x hx; exact h x (List.mem_of_mem_head? hx)
+
+theorem digitsValue_digits (base : Nat) (s : List Char) (acc : Nat)
+    (h : ∀ c ∈ s, c ≠ '_' ∧ digitVal c < base) :
+    digitsValue base s false acc = some (s.foldl (fun acc c => acc * base + digitVal c) acc) := by
+  induction s generalizing acc with
+  | nil => simp [digitsValue]
+  | cons c cs ih =>
+    have hc := h c (by simp)
+    simp only [digitsValue, beq_iff_eq, hc.1, if_false, hc.2, if_true, List.foldl_cons]
+    exact ih _ (fun c hc => h c (by simp [hc]))
+
+theorem valueToInt_digits (ds : List Char) (h : ds ≠ []) (hd : ∀ c ∈ ds, '0' ≤ c ∧ c ≤ '9') :
+    valueToInt ds = some (ds.foldl (fun acc c => acc * 10 + digitVal c) 0) := by
+  have hf := fun c hc => digit_facts c (hd c hc)
+  have he : ds.isEmpty = false := by cases ds <;> simp_all
+  have h1 : strip ds = ds := strip_eq_self ds (fun c hc => (hf c hc).1)
+  have h2 : ds.map lowerCh = ds := by
+    conv => rhs; rw [← List.map_id ds]
+    exact List.map_congr_left (fun c hc => (hf c hc).2.1)
+  have h3 : ds.takeWhile isNumCh = ds := takeWhile_all _ _ (fun c hc => (hf c hc).2.2.1)
+  have h4 : ds.dropWhile isNumCh = [] := dropWhile_all _ _ (fun c hc => (hf c hc).2.2.1)
+  have hm : matchNumSuf ds = some ds := by simp [matchNumSuf, h3, h4, he]
+  have hr : regexMatch ds = some (10, ds) := by
+    rcases ds with _ | ⟨c0, _ | ⟨c1, rest⟩⟩
+    · exact absurd rfl h
+    · simp [regexMatch, hm]
+    · have := hf c1 (by simp)
+      by_cases h0 : c0 = '0'
+      · subst h0; simp [regexMatch, hm, this]
+      · simp [regexMatch, hm, h0]
+  have hp : pyIntOf 10 ds = digitsValue 10 ds false 0 := by
+    rcases ds with _ | ⟨c0, _ | ⟨c1, rest⟩⟩
+    · exact absurd rfl h
+    · have := hf c0 (by simp)
+      simp [pyIntOf, this]
+    · have hb : c1 ≠ 'b' := (hf c1 (by simp)).2.2.2.2.2.1
+      have hu : c0 ≠ '_' := (hf c0 (by simp)).2.2.2.1
+      by_cases h0' : c0 = '0'
+      · subst h0'; simp [pyIntOf, hb]
+      · simp [pyIntOf, hu, h0']
+  simp only [valueToInt, he, h1, h2, hr, hp, Bool.false_eq_true, if_false]
+  exact digitsValue_digits 10 ds 0 (fun c hc => ⟨(hf c hc).2.2.2.1, (hf c hc).2.2.2.2.1⟩)
+
+/-! ### byte order -/
+
+theorem swap32_nat (k : Nat) :
+    leDec (beEnc 4 k) = k % 256 * 16777216 + k / 256 % 256 * 65536 + k / 256 / 256 % 256 * 256
+      + k / 256 / 256 / 256 % 256 := by
+  simp [leDec, beEnc, beDec]
+  omega
+
+theorem swap32_ok (x : Int) (h0 : 0 ≤ x) (h1 : x ≤ 0xFFFFFFFF) :
+    swap32 x = .ok (x % 256 * 16777216 + x / 256 % 256 * 65536 + x / 256 / 256 % 256 * 256
+      + x / 256 / 256 / 256 % 256) := by
+  obtain ⟨k, rfl⟩ := Int.eq_ofNat_of_zero_le h0
+  have h : ¬ ((k : Int) < 0 ∨ (k : Int) > 0xFFFFFFFF) := by omega
+  simp only [swap32, h, if_false, Int.toNat_natCast]
+  rw [swap32_nat k]
+  congr 1 <;> (simp only [Int.ofNat_eq_natCast]; omega)
+
+theorem bytes4 (a b c d : Int) (ha : 0 ≤ a ∧ a < 256) (hb : 0 ≤ b ∧ b < 256) (hc : 0 ≤ c ∧ c < 256)
+    (hd : 0 ≤ d ∧ d < 256) (y : Int) (hy : y = a * 16777216 + b * 65536 + c * 256 + d) :
+    y % 256 = d ∧ y / 256 % 256 = c ∧ y / 256 / 256 % 256 = b ∧ y / 256 / 256 / 256 % 256 = a := by
+  subst hy
+  refine ⟨by omega, by omega, by omega, by omega⟩
+
+/-! ### bit reversal -/
+
+/-- little-endian value of a bit list -/
+def leVal : List Bool → Nat
+  | [] => 0
+  | b :: l => (if b then 1 else 0) + 2 * leVal l
+
+theorem ofBitsBE_append_single (l : List Bool) (b : Bool) :
+    ofBitsBE (l ++ [b]) = ofBitsBE l * 2 + (if b then 1 else 0) := by
+  simp [ofBitsBE, List.foldl_append]
+
+theorem ofBitsBE_reverse (l : List Bool) : ofBitsBE l.reverse = leVal l := by
+  induction l with
+  | nil => rfl
+  | cons b l ih => rw [List.reverse_cons, ofBitsBE_append_single, ih, leVal]; omega
+
+theorem bitsOf_length (n x : Nat) : (bitsOf n x).length = n := by
+  induction n generalizing x with
+  | zero => rfl
+  | succ n ih => simp [bitsOf, ih]
+
+theorem leVal_bitsOf (n x : Nat) : leVal (bitsOf n x) = x % 2 ^ n := by
+  induction n generalizing x with
+  | zero => simp [bitsOf, leVal, Nat.mod_one]
+  | succ n ih =>
+    have hp : 2 ^ (n + 1) = 2 * 2 ^ n := by rw [Nat.pow_succ, Nat.mul_comm]
+    rw [bitsOf, leVal, ih, hp, Nat.mod_mul]
+    have : (if (x % 2 == 1) = true then 1 else 0) = x % 2 := by
+      rcases Nat.mod_two_eq_zero_or_one x with h | h <;> simp [h]
+    rw [this]
+
+theorem bitsOf_leVal (l : List Bool) (n : Nat) (h : l.length = n) : bitsOf n (leVal l) = l := by
+  induction l generalizing n with
+  | nil => subst h; rfl
+  | cons b l ih =>
+    subst h
+    simp only [List.length_cons, bitsOf, leVal]
+    have h1 : ((if b = true then 1 else 0) + 2 * leVal l) / 2 = leVal l := by cases b <;> simp <;> omega
+    have h2 : (((if b = true then 1 else 0) + 2 * leVal l) % 2 == 1) = b := by cases b <;> simp <;> omega
+    rw [h1, h2, ih _ rfl]
+
+theorem leVal_lt (l : List Bool) : leVal l < 2 ^ l.length := by
+  induction l with
+  | nil => simp [leVal]
+  | cons b l ih =>
+    simp only [leVal, List.length_cons, Nat.pow_succ]
+    cases b <;> simp <;> omega
+
+theorem bitLenF_le (f x n : Nat) (h : x < 2 ^ n) : bitLenF f x ≤ n := by
+  induction f generalizing x n with
+  | zero => simp [bitLenF]
+  | succ f ih =>
+    by_cases hx : x = 0
+    · simp [bitLenF, hx]
+    · simp only [bitLenF, hx, if_false]
+      cases n with
+      | zero => simp at h; omega
+      | succ m =>
+        have := ih (x / 2) m (by rw [Nat.pow_succ] at h; omega)
+        omega
+
+theorem reverseBits_eq (x n : Nat) (h : x < 2 ^ n) (hn : 0 < n) :
+    reverseBits x n = leVal (bitsOf n x).reverse := by
+  have hb : bitLen x ≤ n := bitLenF_le x x n h
+  have hN : max n (max (bitLen x) 1) = n := by omega
+  simp only [reverseBits, hN]
+  rw [← ofBitsBE_reverse, List.reverse_reverse]
+
+theorem reverseBits_invol' (x n : Nat) (h : x < 2 ^ n) (hn : 0 < n) :
+    reverseBits (reverseBits x n) n = x := by
+  have hl : (bitsOf n x).reverse.length = n := by simp [bitsOf_length]
+  have hy : reverseBits x n < 2 ^ n := by
+    rw [reverseBits_eq x n h hn]
+    have := leVal_lt (bitsOf n x).reverse
+    rwa [hl] at this
+  rw [reverseBits_eq _ n hy hn, reverseBits_eq x n h hn, bitsOf_leVal _ n hl, List.reverse_reverse,
+    leVal_bitsOf, Nat.mod_eq_of_lt h]
+
+/-! ### chunked reversal / pair swap -/
+
+/-- the body of `reverseBytesInLongs` -/
+def revLongs (b : Bytes) : Bytes := ((chunk4 b).map List.reverse).flatten
+
+theorem revLongs_spec : ∀ (b : Bytes), b.length % 4 = 0 →
+    (revLongs b).length = b.length ∧ revLongs (revLongs b) = b
+  | [], _ => by simp [revLongs, chunk4]
+  | [_], h => by simp at h
+  | [_, _], h => by simp at h
+  | [_, _, _], h => by simp at h
+  | a :: b :: c :: d :: rest, h => by
+    have h' : rest.length % 4 = 0 := by simp at h; omega
+    obtain ⟨i1, i2⟩ := revLongs_spec rest h'
+    have e : revLongs (a :: b :: c :: d :: rest) = d :: c :: b :: a :: revLongs rest := by
+      simp [revLongs, chunk4]
+    rw [e]
+    constructor
+    · simp [i1]
+    · have e' : revLongs (d :: c :: b :: a :: revLongs rest) = a :: b :: c :: d :: revLongs (revLongs rest) := by
+        simp [revLongs, chunk4]
+      rw [e', i2]
+
+theorem swapPairs_spec : ∀ (b : Bytes), (swapPairs b).length = b.length ∧ swapPairs (swapPairs b) = b
+  | [] => by simp [swapPairs]
+  | [_] => by simp [swapPairs]
+  | a :: b :: rest => by
+    obtain ⟨i1, i2⟩ := swapPairs_spec rest
+    simp [swapPairs, i1, i2]
+
+/-! ### padding -/
+
+theorem alignNat_spec (n a : Nat) (ha : 0 < a) :
+    alignNat n a % a = 0 ∧ n ≤ alignNat n a ∧ alignNat n a < n + a := by
+  unfold alignNat
+  refine ⟨Nat.mul_mod_left _ _, ?_, ?_⟩
+  all_goals
+    have e := Nat.mod_add_div (n + (a - 1)) a
+    have l := Nat.mod_lt (n + (a - 1)) ha
+    rw [Nat.mul_comm] at e
+    omega
+
+theorem cycleTake_length (p : Bytes) (n i : Nat) : (cycleTake p n i).length = n := by
+  induction n generalizing i with
+  | zero => rfl
+  | succ n ih => simp [cycleTake, ih]
+
+/-! ### BCD -/
+
+theorem bcd_char (d : Nat) (h : d ≤ 9) :
+    (decide ('0' ≤ Char.ofNat (48 + d)) && decide (Char.ofNat (48 + d) ≤ '9')) = true ∧
+      (Char.ofNat (48 + d)).toNat - 48 = d := by
+  have : ∀ k : Fin 10, (decide ('0' ≤ Char.ofNat (48 + k.val)) && decide (Char.ofNat (48 + k.val) ≤ '9')) = true ∧
+      (Char.ofNat (48 + k.val)).toNat - 48 = k.val := by decide
+  exact this ⟨d, by omega⟩
+
+theorem bcd_foldl (L : List Nat) (hL : ∀ d ∈ L, d ≤ 9) (acc : Nat) :
+    (L.map (fun d => Char.ofNat (48 + d))).foldl (fun acc c => acc * 16 + (c.toNat - 48)) acc =
+      L.foldl (fun acc d => acc * 16 + d) acc := by
+  induction L generalizing acc with
+  | nil => rfl
+  | cons d L ih =>
+    simp only [List.map_cons, List.foldl_cons, (bcd_char d (hL d (by simp))).2]
+    exact ih (fun x hx => hL x (by simp [hx])) _
+
+theorem bcdFromDigits_map (L : List Nat) (hlen : L.length ≤ 4) (hL : ∀ d ∈ L, d ≤ 9) :
+    bcdFromDigits (L.map (fun d => Char.ofNat (48 + d))) = .ok (L.foldl (fun acc d => acc * 16 + d) 0) := by
+  have h1 : ¬ (L.map (fun d => Char.ofNat (48 + d))).length > 4 := by simp; omega
+  have h2 : (L.map (fun d => Char.ofNat (48 + d))).all (fun c => decide ('0' ≤ c) && decide (c ≤ '9')) = true := by
+    rw [List.all_eq_true]
+    intro c hc
+    obtain ⟨d, hd, rfl⟩ := List.mem_map.1 hc
+    exact (bcd_char d (hL d hd)).1
+  unfold bcdFromDigits
+  rw [if_neg h1, if_pos h2, bcd_foldl L hL]
+
+theorem bcd_roundtrip' (n : Nat) (h : bcdDigitOk n = true) :
+    bcdFromDigits (bcdToDigits n) = .ok n := by
+  simp only [bcdDigitOk, Bool.and_eq_true, decide_eq_true_eq] at h
+  obtain ⟨⟨⟨⟨h0, h1⟩, h2⟩, h3⟩, h4⟩ := h
+  simp only [bcdToDigits]
+  generalize hL : (if (List.dropWhile (· == 0) [n / 4096 % 16, n / 256 % 16, n / 16 % 16, n % 16]).isEmpty then [0]
+      else List.dropWhile (· == 0) [n / 4096 % 16, n / 256 % 16, n / 16 % 16, n % 16]) = L
+  have hcases : L = [n / 4096 % 16, n / 256 % 16, n / 16 % 16, n % 16] ∨
+      (n / 4096 % 16 = 0 ∧ L = [n / 256 % 16, n / 16 % 16, n % 16]) ∨
+      (n / 4096 % 16 = 0 ∧ n / 256 % 16 = 0 ∧ L = [n / 16 % 16, n % 16]) ∨
+      (n / 4096 % 16 = 0 ∧ n / 256 % 16 = 0 ∧ n / 16 % 16 = 0 ∧ L = [n % 16]) := by
+    rw [← hL]
+    by_cases e4 : n / 4096 % 16 = 0
+    · by_cases e3 : n / 256 % 16 = 0
+      · by_cases e2 : n / 16 % 16 = 0
+        · by_cases e1 : n % 16 = 0
+          · simp [e4, e3, e2, e1]
+          · simp [e4, e3, e2, e1]
+        · simp [e4, e3, e2]
+      · simp [e4, e3]
+    · simp [e4]
+  rcases hcases with h | ⟨e4, h⟩ | ⟨e4, e3, h⟩ | ⟨e4, e3, e2, h⟩ <;> subst h
+  all_goals
+    rw [bcdFromDigits_map _ (by simp) (by simp; omega)]
+    simp
+    omega
+
 end SpsdkVerif.Misc
